@@ -87,7 +87,7 @@ func FuzzC18Verify(f *testing.F) {
 		}
 		acc, nt, err := verifyScript(script, true)
 		if err != nil {
-			if openFinding("C18-valueless-operand") && valuelessOperand(script) {
+			if openFinding("C18-valueless-operand") && underflow(err) && valuelessOperand(script) {
 				return
 			}
 			c := &VerifyCase{Prop: "C18", Kind: "soup", Script: script, Msg: err.Error()}
